@@ -285,3 +285,13 @@ def r6(ctx):
             yield VIOL("C03-R6", "validate_signature/prevalidate-arg-" + nm, "prevalidate argument %d is not parameter %s" % (i, nm), where=v.span_of_block(pv[0]))
         else:
             yield PASS("C03-R6", "validate_signature/prevalidate-arg-" + nm, "prevalidate arg %d <= %s" % (i, nm), [site(v, pv[0], nm)])
+
+
+import c16  # noqa: E402
+
+
+@M.rule("C03-R5", "the scope date is compared with the UTC date of the parsed instant (timestamp chain shared with C16-R3)")
+def r5(ctx):
+    for r in c16.r3(ctx):
+        r.rule = "C03-R5"
+        yield r
